@@ -86,6 +86,13 @@ def run(ctx):
                     old = [x for x in v[2] if x[0] == "index" and x[1] == ("field", selfp, "registers")]
                     if old and all(old[0][2] == i for i in idx):
                         kind = "max"
+            if kind is None and w["how"] == "call" and w.get("name") == "fill" and elementwise_reset(ctx, m, "registers"):
+                kind = "reset"
+            if kind is None and w["how"] == "store" and m.arg_count == 2:
+                from .common import cellwise_merge
+                cm = cellwise_merge(ctx, m, "registers")
+                if cm["form"] is not None and cm["elem"][0] == "op" and cm["elem"][1] == "max":
+                    kind = "max"
             ctx.check(kind in ("max", "reset"), "R17-max-only", "%s@%s" % (HLL, m.name), w["span"],
                       "%s writes registers with %s" % (m.name, kind),
                       "%s writes `registers` with something other than max(old, new) / zero-fill: %s" % (m.name, fmt(v)[:200] if v else w.get("name")))
